@@ -61,4 +61,50 @@ theorem wireUnread_of_not_reserved (w : Wire) (h : w.reserved = false) : wireUnr
 theorem canonH_hdrOf (r : Header) (w : Wire) : canonH (hdrOf r w) = canonH w.toPacket.header := by
   cases hx : w.ext <;> simp [canonH, hdrOf, Wire.toPacket, hx]
 
+/-! ### the reserved-id region -/
+
+theorem left1_pos (items : List Item) (k : Nat) (hok : items.all Item.ok1 = true)
+    (h : items.any Item.isReserved = true) : 0 < left1 items k := by
+  induction items with
+  | nil => simp at h
+  | cons it r ih =>
+    simp only [List.all_cons, Bool.and_eq_true] at hok
+    simp only [List.any_cons, Bool.or_eq_true] at h
+    cases it with
+    | pad =>
+      simp only [left1]
+      exact ih hok.2 (by simpa [Item.isReserved] using h)
+    | elem id d =>
+      simp only [left1]
+      by_cases h15 : id == 15
+      · simp only [h15, ↓reduceIte]
+        have := hok.1
+        simp only [Item.ok1, Bool.and_eq_true, decide_eq_true_eq] at this
+        omega
+      · simp only [h15, Bool.false_eq_true, ↓reduceIte]
+        exact ih hok.2 (by simpa [Item.isReserved, h15] using h)
+
+/-- inside the region something is always left unread, and never more than the block holds -/
+theorem wireUnread_reserved (w : Wire) (hw : w.WF = true) (hr : w.reserved = true) :
+    0 < wireUnread w ∧ wireUnread w ≤ w.extEnd := by
+  cases hx : w.ext with
+  | none => simp [Wire.reserved, hx] at hr
+  | some b =>
+    have hb : b.WF = true := by
+      simp only [Wire.WF, Bool.and_eq_true, hx] at hw; exact hw.1.2
+    simp only [Wire.reserved, hx] at hr
+    cases b with
+    | oneByte items =>
+      have hok := blockOk_of_WF _ hb
+      simp only [blockOk, Bool.and_eq_true] at hok
+      simp only [ExtBlock.reserved] at hr
+      refine ⟨by simpa [wireUnread, hx, blockUnread] using left1_pos items _ hok.1 hr, ?_⟩
+      have := left1_le items (padTo4 (body1 items).length)
+      simp only [wireUnread, hx, blockUnread, Wire.extEnd, encodeExt, ExtBlock.encode, ExtBlock.body, be16,
+        List.length_append, List.length_cons, List.length_nil, rep]
+      simp only [List.length_replicate]
+      omega
+    | twoByte items => simp [ExtBlock.reserved] at hr
+    | legacy p ws => simp [ExtBlock.reserved] at hr
+
 end Rtp.Proofs.Wire
